@@ -285,6 +285,7 @@ def tree_export(nlay, nameset, maxdrops, shapes, invariants=("LayeredIsUapi", "H
             if sample > 1 and (n + seed) % sample:
                 continue
             recs.append(json.loads(json.loads(ln)))
+    recs.sort(key=canon)          # TLC's output order depends on worker scheduling
     return r, recs, n
 
 
@@ -719,8 +720,9 @@ def c13_tree_cases(exe, tier, seed, verdict):
         cand = [f for f in K if not (f[1] == 0 and t["main"][f[0] - 1] != "regular")]
         for f in cand:
             bad, code = rnd.choice(BADLINES)
-            lineno = rnd.choice([1, 2, 4])
-            pre = ["# c", "", "x=1"][:lineno - 1] if lineno <= 3 else ["# c", "", "x=1"]
+            lineno = rnd.choice([1, 3, 4])
+            # a "key text" line is an error only where it cannot continue a value: never directly after an entry
+            pre = ["x=1", "# c", ""][:lineno - 1]
             content = "\n".join(pre + [bad, "y=2"]) + "\n"
             ent = rnd.choice(["std", "stdcb", "readdirs3"]) if True else "std"
             i = len(cases)
